@@ -91,4 +91,44 @@ CHECKS = {
                              "thorough": ["series:bsdiff", "new-file:shorter-than-partitions", "opt:ForceMapAll", "series:bsdiff-against-differently-named-old-file", "series:excluded-by-size-limit"]},
         "stages": [rapid("optimize", "TestProp", 1600, 48000, qs=8, ts=16, qt=600, tt=5400)],
     },
+    "C03": {
+        "title": "Interrupted patch application resumes from any checkpoint to the same result",
+        "level": "fault_enumeration",
+        "technique": "rapid-generated patches; per patch, enumeration of checkpoints x lags x damaged tail states, resumed in brand-new patcher/bowl from gob-serialized checkpoints",
+        "level_text": ("Per generated patch the harness learns the number N of checkpoints offered to an always-saving consumer, then "
+                       "enumerates checkpoints k (all when N<=8, else first/last + sampled), lags {0,1,2,random}, and four tail states "
+                       "(as left; in-progress output truncated at a length >= the checkpointed offset; bytes after the checkpointed offset "
+                       "overwritten with garbage; later staged files deleted), up to a per-patch cap. Each resume uses a brand-new "
+                       "patcher, bowl and pool and the gob-decoded checkpoint. Also ShouldSave bit patterns and chains of 2-4 interruptions. "
+                       "Oracle: resumed run returns nil and the tree equals the new build; liveness: an uncompressed patch with a streamed "
+                       "series of >=4 messages must offer >=1 checkpoint."),
+        "level_note": "lost fsync (durability) is not modelled: the fault model is 'bytes after the checkpointed offset are arbitrary'; checkpoints and lags beyond the cap are sampled.",
+        "rule": ("rapid draws (build pair with 1-2 multi-block heavily edited files, compression, optimized?, fresh|overlay, seed, ShouldSave "
+                 "pattern, chain). evaluations = patches, sub_evaluations = sessions judged. Non-trivial: a patch with at least one resume that "
+                 "has lag>0 or a damaged tail from a checkpoint inside a file (disk offset > 0). Distinct: SHA-1 of the spec."),
+        "assumptions": ["a crash leaves every byte below the checkpointed offset of the in-progress file, and all earlier files, intact",
+                        "a crashed run never leaves a file longer than its final length"],
+        "required_classes": {"quick": ["ck:in-overlay-file", "ck:in-bsdiff-series", "resume:lag>0", "resume:damaged-tail"],
+                             "thorough": ["cell:%s/%s/%s" % (b, o, c) for b in ("fresh", "overlay") for o in ("plain", "optimized") for c in ("none", "gzip", "brotli")]
+                                         + ["ck:in-overlay-file", "ck:in-bsdiff-series", "resume:lag>0", "resume:damaged-tail", "schedule:chain>=2", "schedule:pattern"]},
+        "stages": [rapid("resume", "TestProp", 160, 4800, qs=16, ts=16, qt=600, tt=7200)],
+    },
+    "C17": {
+        "title": "Partial application by whitelist produces exactly the selected files",
+        "level": "exploration",
+        "technique": "rapid property-based testing: generated patches x whitelist subsets, recording bowl and recording pool compared with the independently decoded patch",
+        "level_text": ("Generated patches (plain/optimized, all compressions) x whitelists (empty, all, singletons, bit patterns). A recording "
+                       "bowl must see exactly one GetWriter or Transpose per whitelisted index and none for others; a recording pool may "
+                       "only see reads of old files referenced (per the decoded patch) by whitelisted series; GetTouchedFiles == |W|; "
+                       "whitelisted files byte-equal to the new build. A dedicated stage builds >2050 files so that a skipped bsdiff "
+                       "series targets old index 2049 (the end marker's numeric value)."),
+        "level_note": "magic values other than 2049 may exist; the generator is aimed at this one because reading skipFile shows it matters.",
+        "rule": ("rapid draws (build pair, compression, optimized?, whitelist mode). Non-trivial: non-empty whitelist and a skipped series "
+                 "adjacent to a processed one. Distinct: SHA-1 of the spec."),
+        "assumptions": [],
+        "required_classes": {"quick": ["skipped:bsdiff", "skipped:rsync", "skipped:wholefile", "selected:bsdiff", "skipped:bsdiff-target-2049"],
+                             "thorough": ["skipped:bsdiff", "skipped:rsync", "skipped:wholefile", "selected:bsdiff", "skipped:bsdiff-target-2049", "skipped:emptyfile"]},
+        "stages": [rapid("whitelist", "TestProp", 2400, 64000, qs=8, ts=16, qt=600, tt=5400),
+                   rapid("magic", "TestMagic", 8, 200, qs=4, ts=8, qt=600, tt=3000, shrinktime="5s")],
+    },
 }
